@@ -34,6 +34,7 @@ def run(ctx, repo):
     ctx.rule('R2', 'gender -> normalize_gender and event -> upper() dominate every key use in the public grader methods')
     ctx.rule('R3', "find_age's clamping arm uses the last column index (len(ages) - 1)")
     ctx.rule('R4', 'grade roles: standard = best / factor; timed: standard / perf; field: perf / standard; timed kinds = {road, track}')
+    ctx.rule('R11', 'no AgeGrader method re-binds its age parameter through int/round/floor/ceil')
     ctx.rule('R10', 'the event classifier gives every tabulated code the same kind in lower case (it sees the code before upper())')
     ctx.rule('R9', 'at every covered (integer / half-integer) age the two columns selected by find_age (folded) hold numbers')
     ctx.rule('R7', 'the wrappers wma_age_grade / wma_age_factor / wma_world_best choose the same table for the same year and by default (folded)')
@@ -313,6 +314,7 @@ def run(ctx, repo):
     wrapper_rules(ctx, repo)
     covered_ages_rule(ctx, repo)
     classifier_case_rule(ctx, repo)
+    age_coercion_rule(ctx, repo)
 
 
 def covered_ages_rule(ctx, repo):
@@ -380,21 +382,42 @@ def classifier_case_rule(ctx, repo):
         if isinstance(st, ast.Assign) and isinstance(st.targets[0], ast.Name) and st.targets[0].id == evp and isinstance(st.value, ast.Call) \
                 and call_name(st.value) in ('upper', 'lower'):
             break
-    if raw_call is None:
-        ctx.ok('R10', 'calculate_factor classifies the event after folding its case')
-        return
-    ek = ag.func('AgeGrader.event_code_to_kind')
     env_ = dict(repo.folded(AGE)[0])
-    fc = fold.FuncConst(ek, env_)
+    attrs = {}
+    for st in ag.cls('AgeGrader').body:
+        if isinstance(st, ast.FunctionDef) and any(isinstance(d, ast.Name) and d.id == 'staticmethod' for d in st.decorator_list):
+            attrs[st.name] = fold.FuncConst(st, env_)
+        elif isinstance(st, ast.Assign) and len(st.targets) == 1 and isinstance(st.targets[0], ast.Name):
+            try:
+                attrs[st.targets[0].id] = fold.Folder().expr(st.value, {})
+            except Exception:
+                pass
+    # the statements of calculate_factor up to and including the upper-casing of the event
+    prelude = []
+    for st in cf_.body:
+        if isinstance(st, ast.Expr) and isinstance(st.value, ast.Constant):
+            continue
+        prelude.append(st)
+        if isinstance(st, ast.Assign) and isinstance(st.targets[0], ast.Name) and st.targets[0].id == evp and isinstance(st.value, ast.Call) \
+                and call_name(st.value) in ('upper', 'lower'):
+            break
+    kvar = [st.targets[0].id for st in prelude if isinstance(st, ast.Assign) and isinstance(st.targets[0], ast.Name)
+            and any(isinstance(c, ast.Call) and call_name(c) == 'event_code_to_kind' for c in ast.walk(st.value))]
 
-    def kind(code):
+    def outcome(code):
+        env = dict(env_)
+        env.update({'self': fold.ObjConst(attrs), evp: code, cf_.args.args[1].arg: 'm', cf_.args.args[2].arg: 40})
+        F = fold.Folder(importer=repo.folded(AGE)[1].importer)
         try:
-            return fold.Folder(importer=repo.folded(AGE)[1].importer).call(fc, [code], {})
+            for st in prelude:
+                F.stmt(st, env)
         except fold._Raise:
-            return '<raises>'
+            return '<refused>'
         except fold.Unfoldable as e:
-            raise AnalysisError('event_code_to_kind is not foldable: %s' % e)
-    bad = []
+            raise AnalysisError('prelude of calculate_factor is not foldable: %s' % e)
+        kd = env.get(kvar[0]) if kvar else None
+        return ('run' if kd in ('track', 'road') else kd, env.get(evp))      # track and road are both timed: the same formula
+    refused, other = [], []
     n = 0
     for rel in ('athlib/wma/wma-data-2015.json', 'athlib/wma/wma-data-2023.json'):
         d = repo.json(rel)
@@ -404,18 +427,50 @@ def classifier_case_rule(ctx, repo):
                 if not isinstance(k, str) or k.lower() == k:
                     continue
                 n += 1
-                if kind(k) != kind(k.lower()):
-                    bad.append(k)
-    bad = sorted(set(bad))
+                a, b = outcome(k), outcome(k.lower())
+                if a == b:
+                    continue
+                (refused if b == '<refused>' else other).append((k, a, b))
     ctx.count('tabulated codes whose lower-case spelling was classified', n)
     ctx.floor('tabulated codes classified in both cases', n, 100)
-    if bad:
-        ctx.finding('R10', '%s::AgeGrader.calculate_factor::lower-case spellings refused by the classifier' % AGE, AGE, raw_call.lineno,
-                    'the event code is classified (event_code_to_kind) before it is upper-cased; %d tabulated codes are classified differently in '
-                    'lower case - mostly refused with ValueError - e.g. %s: codes differing only in letter case do not give the same factor'
-                    % (len(bad), ', '.join(repr(b.lower()) for b in bad[:6])), bad[0].lower())
-    else:
-        ctx.ok('R10', 'every tabulated code is classified alike in both cases (%d codes)' % n)
+    rk = sorted({x[0] for x in refused})
+    if rk:
+        ctx.finding('R10', '%s::AgeGrader.calculate_factor::lower-case spellings refused by the classifier' % AGE, AGE, raw_call.lineno if raw_call else cf_.lineno,
+                    'the event code is classified (event_code_to_kind) before it is upper-cased; %d tabulated codes are refused with ValueError in '
+                    'lower case, e.g. %s: codes differing only in letter case do not give the same factor'
+                    % (len(rk), ', '.join(repr(b.lower()) for b in rk[:6])), rk[0].lower())
+    ok_ = sorted({x[0] for x in other})
+    if ok_:
+        k, a, b = [x for x in other if x[0] == ok_[0]][0]
+        ctx.finding('R10', '%s::AgeGrader.calculate_factor::lower-case spellings graded as another event' % AGE, AGE, cf_.lineno,
+                    '%d tabulated codes are graded as another event in lower case: %r is looked up as %r (kind %s) while %r is looked up as %r (kind %s): '
+                    'codes differing only in letter case silently get another factor and best' % (len(ok_), k, a[1], a[0], k.lower(), b[1], b[0]), k.lower())
+    if not rk and not ok_:
+        ctx.ok('R10', 'every tabulated code is classified and looked up alike in both cases (%d codes)' % n)
+
+
+def age_coercion_rule(ctx, repo):
+    """R11: half-integer ages are part of the domain and calculate_factor interpolates them; no method of AgeGrader re-binds its age
+    parameter through int() / round() / floor() / ceil() (a truncation in one method only makes grade != standard / performance)"""
+    ag = repo.module(AGE)
+    n = 0
+    for q, fn in ag.functions.items():
+        if not q.startswith('AgeGrader.'):
+            continue
+        params = {a.arg for a in fn.args.args}
+        if 'age' not in params:
+            continue
+        n += 1
+        for a in ast.walk(fn):
+            if isinstance(a, ast.Assign) and any(isinstance(t, ast.Name) and t.id == 'age' for t in a.targets) and any(
+                    isinstance(c, ast.Call) and call_name(c) in ('int', 'round', 'floor', 'ceil', 'trunc') and any(
+                        isinstance(x, ast.Name) and x.id == 'age' for x in ast.walk(c)) for c in ast.walk(a.value)):
+                ctx.finding('R11', '%s::%s::age truncated' % (AGE, q), AGE, a.lineno,
+                            '%s re-binds its age through `%s`: a fractional age (47.5) is truncated in this method while calculate_factor '
+                            'interpolates it, so the grade no longer equals (best / factor) / performance' % (q, unparse(a)), 'age 47.5')
+    ctx.count('AgeGrader methods with an age parameter', n)
+    if not any(f.rule == 'R11' for f in ctx.findings):
+        ctx.ok('R11', 'no AgeGrader method truncates its age parameter (%d methods)' % n)
 
 
 def wrapper_rules(ctx, repo):
